@@ -235,6 +235,15 @@ def main():
             rec = camp.add(f'exact#{i}', sc, exact=True)
         if rec and i % 3 == 0:
             trajectory_oracle(ck, sc, rec)
+    # a learnable coefficient k OUTSIDE solver.nets, used inside the equations and registered only with the user's optimiser
+    # (SGD / Adam over the net weights + [k]): the step must move EVERY parameter the optimiser owns by the accumulated gradient.
+    # Oracle only (the Coq toy instance has no such parameter): independent recomputation with Fractions of gradient and SGD step.
+    for i in range(n // 7):
+        sc = T.gen_scenario(r, opt_kinds=('sgd', 'sgd', 'adam'), cb_actions=('stop', 'set_loss'), lids=(0, 1), max_epochs=(1, 4),
+                            nmetrics=(0, 1), n_fits=(1, 3))
+        sc['cfg']['extra_k'] = True
+        sc['extra_k'] = r.randint(-8, 8) / 4
+        camp.add(f'extra-param#{i}', sc, coq=False)
     camp.correspond()
     if ck.broken and not ck.failures:
         ck.notes.append('search: a broken obligation without a failing input -> the oracle alone was run on 4x more scenarios')
